@@ -408,7 +408,11 @@ def run_cases(run: Run, cs):
                     run.disagree(c["kind"], small, "ok", f"{l1} | {l2}")
                     break
                 t = Toks(l1)
-                if c["kind"] == "smm":
+                if c["kind"] == "smm" and not st.get("observed", True):
+                    # without observations the convergence gate reads the combined NIS left by the last observed step, which the model's step does not
+                    # carry: the probability step of such a step is judged by the oracle alone (the probabilities stay what they were)
+                    pass
+                elif c["kind"] == "smm":
                     kept = [int(x) for x in t.list()]
                     w = t.list()
                     closed = t.int() == 1
@@ -420,7 +424,7 @@ def run_cases(run: Run, cs):
                         tot = sum(pl)
                         post = [x / tot for x in pl] if tot > 0 else []
                         # (the pre-prune posterior, and the posterior renormalised over any subset, may sit on a threshold)
-                        near = any(abs(x - float(thr)) < 1e-9 for x in post + [float(y) for y in w] for thr in (c["thr"], c["pct"]))
+                        near = any(abs(x - float(thr)) < 1e-9 for x in post + [float(y) for y in w] + list(st["w"]) for thr in (c["thr"], c["pct"]))
                         if near:
                             run.boundary_skips += 1
                         else:
